@@ -1,6 +1,7 @@
 package main
 
 import (
+	"html"
 	"fmt"
 	"go/types"
 	"math"
@@ -492,6 +493,35 @@ func builtinModels() map[string]modelFn {
 		e.callFunction(st, fn, []Value{err, tgt, e.ctx.True}, nil, c.ret)
 	}
 
+	// ----- os: the file entry points used by pkg/app/fs.go run against the in-memory tree of
+	// harness/zzverif/memfs.go (plain Go, executed from SSA) -----
+	for from, to := range map[string]string{
+		"os.Open": "ZZOsOpen", "os.Stat": "ZZOsStat", "os.MkdirTemp": "ZZMkdirTemp", "os.MkdirAll": "ZZMkdirAll",
+		"os.WriteFile": "ZZWriteFile", "os.RemoveAll": "ZZRemoveAll",
+		"os.IsNotExist": "ZZIsNotExist", "os.IsPermission": "ZZIsPermission", "os.IsExist": "ZZIsExist",
+		"(*os.File).Stat": "ZZFileStat", "(*os.File).Name": "ZZFileName", "(*os.File).Close": "ZZFileClose",
+		"(*os.File).Read": "ZZFileRead", "(*os.File).ReadAt": "ZZFileReadAt", "(*os.File).Seek": "ZZFileSeek",
+		"(*os.File).Readdir": "ZZFileReaddir",
+	} {
+		to := to
+		m[from] = func(e *Engine, st *State, c *callCtx) {
+			pkg := e.prog.ImportedPackage(hertz + "internal/zzverif")
+			if pkg == nil || pkg.Func(to) == nil {
+				e.unsupported(st, "file system call without the zzverif in-memory tree: "+to)
+			}
+			e.callFunction(st, pkg.Func(to), c.args, nil, c.ret)
+		}
+	}
+
+	// html.EscapeString on concrete text (its replacer is built by a package initialiser)
+	m["html.EscapeString"] = func(e *Engine, st *State, c *callCtx) {
+		str, ok := e.concreteString(st, c.args[0].(StrVal))
+		if !ok {
+			e.unsupported(st, "html.EscapeString of symbolic text")
+		}
+		e.finish(st, c, e.constString(html.EscapeString(str)))
+	}
+
 	// ----- time -----
 	m["time.Now"] = func(e *Engine, st *State, c *callCtx) {
 		st.clock += 1000
@@ -538,6 +568,10 @@ func builtinModels() map[string]modelFn {
 		o.timerActive = true
 		e.finish(st, c, e.ctx.Bool(was))
 	}
+	// display-only parts of time.Time: the location and the printed form are outside every claim
+	m["(time.Time).In"] = func(e *Engine, st *State, c *callCtx) { e.finish(st, c, c.args[0]) }
+	m["(time.Time).UTC"] = func(e *Engine, st *State, c *callCtx) { e.finish(st, c, c.args[0]) }
+	m["(time.Time).String"] = func(e *Engine, st *State, c *callCtx) { e.finish(st, c, e.constString("<time>")) }
 	// tickers: the channel stays armed; each fire advances the modelled clock by the period
 	m["time.NewTicker"] = func(e *Engine, st *State, c *callCtx) {
 		d, ok := c.args[0].(*Term)
@@ -934,6 +968,11 @@ func (e *Engine) formatCells(st *State, fs StrVal, argv SliceVal) ([]Value, bool
 		iv, isI := a.(IfaceVal)
 		if !isI || iv.typ == nil {
 			return nil, false
+		}
+		if iv.typ.String() == "time.Time" {
+			// printed form of an instant: display only, outside every claim
+			out = append(out, e.byteVals([]byte("<time>"))...)
+			continue
 		}
 		switch x := iv.v.(type) {
 		case StrVal:
